@@ -9,7 +9,7 @@ CONSTANTS
   Users <- C_Users
   Cfgs <- C_CfgsReopen
   MaxCalls = 3
-  MaxFlush = 2
+  MaxFlush = 1
   MaxReopen = 2
   MaxCrash = 0
   MaxFaults = 0
